@@ -589,8 +589,18 @@ func TestVFC03Wire(t *testing.T) {
 				for attempt := 0; attempt < 3; attempt++ {
 					_ = co.SetDeadline(time.Now().Add(wait))
 					xerr = co.WriteMsg(req)
-					if xerr == nil {
+					for xerr == nil {
 						resp, xerr = co.ReadMsg()
+						if xerr != nil || (resp.Id == req.Id && len(resp.Question) == 1 && resp.Question[0] == req.Question[0]) {
+							break
+						}
+						// a datagram that answers another request (a late copy
+						// from an earlier socket with the same port): not ours
+						vfC03.Class("wire:stray_datagram_ignored")
+						resp = nil
+					}
+					if xerr != nil {
+						resp = nil
 					}
 					if wantExcluded || resp != nil {
 						break
